@@ -173,6 +173,10 @@ struct Driver {
     }
     World f = w.Fork();
     f.label = "convergence";
+    // many earlier builds leave many superseded log records; that changes
+    // nothing about what is up to date, but makes the next load recompact
+    uint32_t inflate = tape.Choice(ST_FORK0 + fork_index, 5);
+    if (inflate == 0) { InflateLogs(f, true, false); rr.stats.n["convergence_with_recompaction"]++; }
     for (int round = 0; round < 2; round++) {
       InvPlan p = r.plan;
       p.fail.clear(); p.editor = false; p.on_signal = 0; p.fp = FaultPlan();
@@ -855,6 +859,102 @@ struct Driver {
     else { w.k.Touch(p, true); Note("touch " + p); }
   }
 
+  // the include directives of a source change, what it computes does not
+  void DoEditIncludes() {
+    std::vector<std::string> s = EditableSources();
+    if (s.empty()) return;
+    std::string p = s[H((uint32_t)s.size())];
+    if (w.emptied.count(p)) return;
+    w.inc_version[p]++;
+    w.k.WriteFile(p, w.SourceContent(p), true);
+    Note("edit includes of " + p);
+  }
+
+  // Discovered dependencies change over time: a source starts including another
+  // (possibly empty) file, gets rebuilt, and then that file changes.
+  void DoIncludeChurn() {
+    std::vector<int> cands;
+    for (const Stmt& s : w.sc.stmts) if (s.alive && !s.hidden.empty() && !s.ins.empty() && w.sc.IsSource(s.ins[0]) && !w.sc.FindDyndep(s.ins[0]) && s.ins[0] != "gen.src") cands.push_back(s.id);
+    if (cands.empty()) return;
+    const Stmt& s = w.sc.stmts[cands[H((uint32_t)cands.size())]];
+    std::string primary = s.ins[0];
+    // headers that are sources may be empty for a while
+    for (auto& h : s.hidden) if (w.sc.IsSource(h) && !w.sc.FindDyndep(h) && H(2) == 0 && h != primary) { w.emptied.insert(h); w.k.WriteFile(h, w.SourceContent(h), true); }
+    Note("include churn on statement " + std::to_string(s.id));
+    DoBuild();
+    if (dead) return;
+    if (!w.emptied.count(primary)) { w.inc_version[primary]++; w.k.WriteFile(primary, w.SourceContent(primary), true); Note("edit includes of " + primary); }
+    DoBuild();
+    if (dead) return;
+    for (auto& h : s.hidden) {
+      if (!w.sc.IsSource(h) || w.sc.FindDyndep(h)) continue;
+      w.emptied.erase(h);
+      w.version[h]++;
+      w.k.WriteFile(h, w.SourceContent(h), true);
+      Note("edit " + h);
+    }
+    DoBuild();
+  }
+
+  void DoEmptySource() {
+    std::vector<std::string> s = EditableSources();
+    if (s.empty()) return;
+    std::string p = s[H((uint32_t)s.size())];
+    if (w.emptied.count(p)) { w.emptied.erase(p); w.version[p]++; Note("fill " + p); }
+    else { w.emptied.insert(p); Note("empty " + p); }
+    w.k.WriteFile(p, w.SourceContent(p), true);
+  }
+
+  // Many earlier builds leave many superseded records: append copies of the
+  // current records (meaning unchanged) so that the next load recompacts.
+  void DoInflateLog() { InflateLogs(w, H(2) == 0, true); }
+  void InflateLogs(World& w, bool also_deps, bool note) {
+    std::string path = w.sc.LogDir() + ".ninja_log", b;
+    if (w.k.ReadFile(path, &b) && !b.empty() && b.back() == '\n') {
+      BuildLogFold f = FoldBuildLog(b, true);
+      if (f.valid_header && !f.last.empty()) {
+        int copies = 1 + 110 / (int)f.last.size() + 3;
+        std::string add;
+        for (int c = 0; c < copies; c++)
+          for (auto& kv : f.last) {
+            char l1[96], l2[40];
+            snprintf(l1, sizeof l1, "%d\t%d\t%lld\t", kv.second.start, kv.second.end, (long long)kv.second.mtime);
+            snprintf(l2, sizeof l2, "\t%llx\n", (unsigned long long)kv.second.hash);
+            add += std::string(l1) + kv.first + l2;
+          }
+        w.k.WriteFile(path, b + add, true);
+        if (note) Note("inflate .ninja_log with " + std::to_string(copies) + " copies of its " + std::to_string(f.last.size()) + " records");
+        rr.stats.n["log_inflated"]++;
+      }
+    }
+    if (also_deps) {
+      std::string dp = w.sc.LogDir() + ".ninja_deps", db;
+      if (w.k.ReadFile(dp, &db)) {
+        DepsLogFold f = FoldDepsLog(db, true);
+        if (f.valid_header && f.clean_eof && !f.last.empty()) {
+          // re-append every output's latest deps record (ids are positions in f.paths)
+          std::map<std::string, int> id;
+          for (size_t i = 0; i < f.paths.size(); i++) id[f.paths[i]] = (int)i;
+          std::string add;
+          int copies = 1 + 1010 / (int)f.last.size() + 3;
+          std::string one;
+          for (auto& kv : f.last) {
+            uint32_t size = (uint32_t)(4 * (3 + kv.second.deps.size())) | 0x80000000u;
+            one.append((const char*)&size, 4);
+            int32_t oid = id[kv.first]; one.append((const char*)&oid, 4);
+            uint32_t lo = (uint32_t)(kv.second.mtime & 0xffffffff), hi = (uint32_t)((uint64_t)kv.second.mtime >> 32);
+            one.append((const char*)&lo, 4); one.append((const char*)&hi, 4);
+            for (auto& dpth : kv.second.deps) { int32_t di = id[dpth]; one.append((const char*)&di, 4); }
+          }
+          for (int c = 0; c < copies; c++) add += one;
+          w.k.WriteFile(dp, db + add, true);
+          if (note) Note("inflate .ninja_deps with " + std::to_string(copies) + " copies of its records");
+          rr.stats.n["deps_inflated"]++;
+        }
+      }
+    }
+  }
+
   void DoDeleteOutput() {
     std::vector<std::string> outs = AllOutputs();
     if (outs.empty()) return;
@@ -936,7 +1036,7 @@ struct Driver {
       if (i == 0 && H(8) != 0) { DoBuild(); continue; }
       int ws[] = {prof.w_build, prof.w_edit, prof.w_touch, prof.w_del_out, prof.w_change_cmd, prof.w_change_rsp,
                   prof.w_regen, prof.w_del_log, prof.w_del_depfile, prof.w_clean, prof.w_cleandead, prof.w_tool_ro,
-                  prof.w_dry, prof.w_manifest_edit};
+                  prof.w_dry, prof.w_manifest_edit, prof.w_edit_includes, prof.w_empty_source, prof.w_inflate_log, prof.w_include_churn};
       int total = 0;
       for (int x : ws) total += x;
       int c = (int)H((uint32_t)total), op = 0;
@@ -956,6 +1056,10 @@ struct Driver {
         case 11: DoReadOnlyTool(); break;
         case 12: DoDryRun(); break;
         case 13: DoManifestEdit(); break;
+        case 14: DoEditIncludes(); break;
+        case 15: DoEmptySource(); break;
+        case 16: DoInflateLog(); break;
+        case 17: DoIncludeChurn(); break;
       }
     }
     // histories end with a build so that every change is exercised
